@@ -3,7 +3,7 @@ import Ypv.Props.C10
 #print axioms Ypv.C10.stop_refuses
 #print axioms Ypv.C10.accepted_unless_stop_conflict
 #print axioms Ypv.C10.resolve_is_policy
-#print axioms Ypv.C10.resolved_oneObj_partial
+#print axioms Ypv.C10.resolved_oneObj
 #print axioms Ypv.C10.merged_no_duplicate_anchor
 #print axioms Ypv.C10.left_reads_left
 #print axioms Ypv.C10.right_reads_right
